@@ -163,6 +163,25 @@ func Solve(script string, dir, name string, timeoutS int, confirm bool) SolverRe
 			res.Verdict = "timeout"
 		}
 	}
+	if !definitive && res.Verdict == "unknown" {
+		// E-matching gave up: try model-based instantiation briefly, only to obtain a
+		// counter-model for the report/replay (an unsat here also counts: same formula)
+		sp := solverSpec{"z3-new(mbqi)", func(f string, t int) []string {
+			return []string{fmt.Sprintf("-T:%d", t), "smt.mbqi=true", f}
+		}, "z3-new"}
+		v, out, dt := runOne(context.Background(), sp, file, 6)
+		res.Raw[sp.name] = fmt.Sprintf("%s (%.2fs)", v, dt)
+		if v == "sat" {
+			res.Verdict, res.Solver = "sat", sp.name
+			if len(out) > 6000 {
+				out = out[:6000] + "…"
+			}
+			res.Model = out
+		} else if v == "unsat" {
+			res.Verdict, res.Solver = "unsat", sp.name
+			definitive = true
+		}
+	}
 	if definitive && res.Verdict == "unsat" && confirm {
 		for _, sp := range solvers {
 			if sp.name == res.Solver {
